@@ -6,7 +6,7 @@ From ACB Require Import Base.Outcome Base.QcExtra Base.Arith Model.Tx Model.Ledg
      Model.DeltaList Model.App Model.Summary Model.SummaryObs Proofs.SummaryProps.
 From Coq Require Import Sorted.
 From ACB Require Import Proofs.C15Full Proofs.SortLayout Proofs.C10Scan Proofs.C10Sim Proofs.C10Roundtrip
-     Proofs.C10Ranges Proofs.C10Cut Proofs.C10Window Proofs.C10Classes Proofs.C10Holdings Proofs.C10Entry Proofs.C10Examples.
+     Proofs.C10Ranges Proofs.C10Cut Proofs.C10Window Proofs.C10Classes Proofs.C10Holdings Proofs.C10Entry Proofs.C10Examples Proofs.C10Annual.
 Import ListNotations.
 
 (* ------------------------------------------------------------------ the full statement
@@ -637,3 +637,179 @@ Example C10_roundtrip_simple_single_security_nonvacuous :
       /\ (forall sums, make_summary exact idle_date (fst (sec_run exact idle_rows)) false = Ok sums -> through_csv sums = sums)
       /\ existsb is_sfl_delta (later_deltas idle_date (fst (sec_run exact idle_rows))) = true).
 Proof. split; [exact rt_entry_hypotheses | exact idle_entry_hypotheses]. Qed.
+
+(* ==================================================================== extension 3: the annual mode
+   (Proofs/C10Annual.v; design.d/C10-roundtrip.md) *)
+
+(* ------------------------------------------------------------------ (11) the generated rows of the annual mode
+   [hs]: per affiliate, the shares at the cut [ah_sh], the per-share cost
+   [ah_aps] (None: registered) and the number of shares of the base purchase
+   [ah_n] = shares + number of its generated sales; [sells]: the generated
+   1-share sales (affiliate, date = 1 January of the year, per-share cost, gain
+   and loss of the year), sorted by date, sales of different dates more than
+   30 days apart, at most one per affiliate and date, all later than the base
+   purchases by more than 30 days; a sale realising a loss has no row of [X]
+   (what follows the summary) within 30 days after it.  Run from nothing, the
+   base purchases followed by the sales are ACCEPTED, every sale realises
+   EXACTLY gain - loss (the net gain of the affiliate in that year) without
+   superficial loss, and the ledger ends with every affiliate's shares and
+   cost base at the cut: (ah_sh, per-share cost x ah_sh), total = sum of shares. *)
+Theorem C10_annual_rebuild : forall like d0 (hs : list ahold) (sells : list asell) X,
+  NoDup (map (fun h => af_id (ah_af h)) hs) -> Forall ah_ok hs ->
+  (forall h, In h hs -> ah_n h = (ah_sh h + qn (cnt (af_id (ah_af h)) sells))%Qc) ->
+  Forall (sell_ok hs X) sells ->
+  StronglySorted (fun a b => in_gap (as_date a) b) sells -> NoDup (map akey sells) ->
+  Forall (fun s => (d0 < as_date s - window_days)%Z) sells ->
+  exists dsB dsS stG,
+    run_part exact [] st0 (map (abuy_tx like d0) hs ++ map (asell_tx like) sells) X
+    = (dsB ++ dsS, rev (map (asell_tx like) sells) ++ rev (map (abuy_tx like d0) hs), stG, None)
+    /\ ps_all stG = tot_sh hs /\ lp stG = ps_all stG
+    /\ (forall af, obs stG af = obs_hs hs af ah_sh (obs st0 af))
+    /\ Forall (fun d => d_gain d = None) dsB
+    /\ map d_gain dsS = map (fun s => Some (as_gain s - as_loss s)%Qc) sells
+    /\ Forall (fun d => d_sfl d = None) dsS.
+Proof. exact annual_rebuild. Qed.
+Check C10_annual_rebuild : forall like d0 (hs : list ahold) (sells : list asell) X,
+  NoDup (map (fun h => af_id (ah_af h)) hs) -> Forall ah_ok hs ->
+  (forall h, In h hs -> ah_n h = (ah_sh h + qn (cnt (af_id (ah_af h)) sells))%Qc) ->
+  Forall (sell_ok hs X) sells ->
+  StronglySorted (fun a b => in_gap (as_date a) b) sells -> NoDup (map akey sells) ->
+  Forall (fun s => (d0 < as_date s - window_days)%Z) sells ->
+  exists dsB dsS stG,
+    run_part exact [] st0 (map (abuy_tx like d0) hs ++ map (asell_tx like) sells) X
+    = (dsB ++ dsS, rev (map (asell_tx like) sells) ++ rev (map (abuy_tx like d0) hs), stG, None)
+    /\ ps_all stG = tot_sh hs /\ lp stG = ps_all stG
+    /\ (forall af, obs stG af = obs_hs hs af ah_sh (obs st0 af))
+    /\ Forall (fun d => d_gain d = None) dsB
+    /\ map d_gain dsS = map (fun s => Some (as_gain s - as_loss s)%Qc) sells
+    /\ Forall (fun d => d_sfl d = None) dsS.
+Print Assumptions C10_annual_rebuild.
+
+(* ------------------------------------------------------------------ (12) C10_roundtrip_annual_partial
+   annual mode, wholly summarisable prefix: [B1]/[st1] rows and ledger state of
+   the full history at the cut, holding what [hs] says; [T] the later rows.
+   Outside the annual class in its strong form (sell_ok: no LATER ROW AT ALL
+   within 30 days after a generated loss sale - K_annual_sell_in_window only
+   excludes acquisitions; the rest needs the look-ahead of the generated sale
+   over real later sales to be accepted) and with the window conditions of
+   C10_later_loss_rows_reproduced (superficial losses after the date have the
+   summarised rows before their window - what summary_ranges guarantees for a
+   wholly summarisable prefix - and the base purchases, dated 1 January of the
+   year before the first, lie before the window of every later sale at a loss;
+   the generated SALES may lie inside it: the backward scan ignores sales):
+   generated rows ++ later rows is ACCEPTED, the generated sales realise the
+   yearly net gains, and the later rows are reported EXACTLY. *)
+Theorem C10_roundtrip_annual_partial :
+  forall regof like d0 (hs : list ahold) (sells : list asell) T B1 st1 dsT,
+  NoDup (map (fun h => af_id (ah_af h)) hs) -> Forall ah_ok hs ->
+  (forall h, In h hs -> ah_n h = (ah_sh h + qn (cnt (af_id (ah_af h)) sells))%Qc) ->
+  Forall (sell_ok hs T) sells ->
+  StronglySorted (fun a b => in_gap (as_date a) b) sells -> NoDup (map akey sells) ->
+  Forall (fun s => (d0 < as_date s - window_days)%Z) sells ->
+  ps_all st1 = tot_sh hs -> lp st1 = ps_all st1 ->
+  (forall af, goodaf regof af -> obs st1 af = obs_hs hs af ah_sh (0%Qc, if af_reg af then None else Some 0%Qc)) ->
+  run_loop exact B1 st1 T = (dsT, None) -> Forall spec_nz T -> Forall (gooddelta regof) dsT ->
+  Forall (fun d => (d_sfl d <> None -> inert exact (d_sd d - window_days) B1)
+                   /\ ((d_sfl d <> None \/ loss_row d) -> (d0 < d_sd d - window_days)%Z)) dsT ->
+  exists dsB dsS,
+    run exact None (map (abuy_tx like d0) hs ++ map (asell_tx like) sells ++ T) = (dsB ++ dsS ++ dsT, None)
+    /\ Forall (fun d => d_gain d = None) dsB
+    /\ map d_gain dsS = map (fun s => Some (as_gain s - as_loss s)%Qc) sells
+    /\ Forall (fun d => d_sfl d = None) dsS.
+Proof. exact roundtrip_annual_run. Qed.
+Check C10_roundtrip_annual_partial :
+  forall regof like d0 (hs : list ahold) (sells : list asell) T B1 st1 dsT,
+  NoDup (map (fun h => af_id (ah_af h)) hs) -> Forall ah_ok hs ->
+  (forall h, In h hs -> ah_n h = (ah_sh h + qn (cnt (af_id (ah_af h)) sells))%Qc) ->
+  Forall (sell_ok hs T) sells ->
+  StronglySorted (fun a b => in_gap (as_date a) b) sells -> NoDup (map akey sells) ->
+  Forall (fun s => (d0 < as_date s - window_days)%Z) sells ->
+  ps_all st1 = tot_sh hs -> lp st1 = ps_all st1 ->
+  (forall af, goodaf regof af -> obs st1 af = obs_hs hs af ah_sh (0%Qc, if af_reg af then None else Some 0%Qc)) ->
+  run_loop exact B1 st1 T = (dsT, None) -> Forall spec_nz T -> Forall (gooddelta regof) dsT ->
+  Forall (fun d => (d_sfl d <> None -> inert exact (d_sd d - window_days) B1)
+                   /\ ((d_sfl d <> None \/ loss_row d) -> (d0 < d_sd d - window_days)%Z)) dsT ->
+  exists dsB dsS,
+    run exact None (map (abuy_tx like d0) hs ++ map (asell_tx like) sells ++ T) = (dsB ++ dsS ++ dsT, None)
+    /\ Forall (fun d => d_gain d = None) dsB
+    /\ map d_gain dsS = map (fun s => Some (as_gain s - as_loss s)%Qc) sells
+    /\ Forall (fun d => d_sfl d = None) dsS.
+Print Assumptions C10_roundtrip_annual_partial.
+
+(* non-vacuity: two affiliates, two gain years (one of them a loss year for one
+   affiliate), a later superficial loss.  The rows that make_summary generates
+   in annual mode ARE the abstract rows (first conjunct, numbers compared by
+   value), every hypothesis holds, and the model's own round trip is true. *)
+Example C10_roundtrip_annual_partial_nonvacuous :
+  match make_summary exact an_date (fst (sec_run exact an_rows)) true with
+  | Ok sums => txs_eqb sums (map (abuy_tx an_like an_d0) an_hs ++ map (asell_tx an_like) an_sells)
+  | _ => false
+  end = true
+  /\ NoDup (map (fun h => af_id (ah_af h)) an_hs) /\ Forall ah_ok an_hs
+  /\ (forall h, In h an_hs -> ah_n h = (ah_sh h + qn (cnt (af_id (ah_af h)) an_sells))%Qc)
+  /\ Forall (sell_ok an_hs an_T) an_sells
+  /\ StronglySorted (fun a b => in_gap (as_date a) b) an_sells /\ NoDup (map akey an_sells)
+  /\ Forall (fun s => (an_d0 < as_date s - window_days)%Z) an_sells
+  /\ snd an_runP = None
+  /\ ps_all an_st1 = tot_sh an_hs /\ lp an_st1 = ps_all an_st1
+  /\ (forall af, goodaf no_reg0 af ->
+        obs an_st1 af = obs_hs an_hs af ah_sh (Q2Qc 0, if af_reg af then None else Some (Q2Qc 0)))
+  /\ run_loop exact an_B1 an_st1 an_T = (an_dsT, None) /\ Forall spec_nz an_T /\ Forall (gooddelta no_reg0) an_dsT
+  /\ Forall (fun d => (d_sfl d <> None -> inert exact (d_sd d - window_days) an_B1)
+                     /\ ((d_sfl d <> None \/ loss_row d) -> (an_d0 < d_sd d - window_days)%Z)) an_dsT
+  /\ existsb is_sfl_delta an_dsT = true
+  /\ roundtrip_ok exact an_date true an_rows = true
+  /\ K_annual_sell_in_window exact an_date true an_rows = false.
+Proof. exact an_hypotheses. Qed.
+
+(* ------------------------------------------------------------------ K_zero_sfl_cell with in-range quantities
+   the witness of C10_zero_sfl_cell_witness with at most 10 decimal places:
+   a loss of $0.50 on one share (cell 0!), 0.0000000001 shares bought five days
+   later; replayed on the real code (same panic, util/math.rs:93) *)
+Theorem C10_zero_sfl_cell_witness_in_range :
+  history_ok exact wit6 = true /\ history_ok dec wit6 = true
+  /\ roundtrip_obs_ok exact wit5_date false wit6 = false /\ roundtrip_obs_ok dec wit5_date false wit6 = false
+  /\ K_summary_buy_in_window exact wit5_date false wit6 = false
+  /\ K_zero_balance_acb exact wit5_date wit6 = false
+  /\ K_idle_split_expansion exact wit5_date wit6 = false
+  /\ K_zero_sfl_cell wit6 = true
+  /\ Forall (rowQ no_reg 0) wit6 /\ forallb valid_tx wit6 = true.
+Proof. exact wit6_fails. Qed.
+Check C10_zero_sfl_cell_witness_in_range :
+  history_ok exact wit6 = true /\ history_ok dec wit6 = true
+  /\ roundtrip_obs_ok exact wit5_date false wit6 = false /\ roundtrip_obs_ok dec wit5_date false wit6 = false
+  /\ K_summary_buy_in_window exact wit5_date false wit6 = false
+  /\ K_zero_balance_acb exact wit5_date wit6 = false
+  /\ K_idle_split_expansion exact wit5_date wit6 = false
+  /\ K_zero_sfl_cell wit6 = true
+  /\ Forall (rowQ no_reg 0) wit6 /\ forallb valid_tx wit6 = true.
+Print Assumptions C10_zero_sfl_cell_witness_in_range.
+
+(* ------------------------------------------------------------------ (13) the rows of make_annual_gains_summary_txs
+   for an affiliate that is not registered: the base purchase (abuy_tx) of
+   (shares + number of gain years) at the per-share cost on 1 January of the
+   year before the first, and one sale (asell_tx) per gain year, with the gain
+   as price premium or the loss as commission - the rows that
+   C10_annual_rebuild is about. *)
+Theorem C10_annual_summary_rows : forall af fy ds d ys0 c,
+  af_reg af = false -> yearly_gains exact af ds [] = Ok ys0 ->
+  s_acb (d_post d) = Some c -> (0 <= c)%Qc -> (0 <= s_sh (d_post d))%Qc ->
+  let ys := sort_years ys0 in
+  let aps := if Qcltb 0 (s_sh (d_post d)) then (c / s_sh (d_post d))%Qc else 0%Qc in
+  let h := {| ah_af := af; ah_sh := s_sh (d_post d); ah_aps := Some aps;
+              ah_n := (s_sh (d_post d) + qn (length ys))%Qc |} in
+  annual_summary exact af fy ds d
+  = Ok ((if Qcltb 0 (ah_n h) then [abuy_tx (d_tx d) (jan1 (fy - 1)) h] else [])
+        ++ map (fun yg => asell_tx (d_tx d) (ysell af aps yg)) ys).
+Proof. exact annual_summary_rows. Qed.
+Check C10_annual_summary_rows : forall af fy ds d ys0 c,
+  af_reg af = false -> yearly_gains exact af ds [] = Ok ys0 ->
+  s_acb (d_post d) = Some c -> (0 <= c)%Qc -> (0 <= s_sh (d_post d))%Qc ->
+  let ys := sort_years ys0 in
+  let aps := if Qcltb 0 (s_sh (d_post d)) then (c / s_sh (d_post d))%Qc else 0%Qc in
+  let h := {| ah_af := af; ah_sh := s_sh (d_post d); ah_aps := Some aps;
+              ah_n := (s_sh (d_post d) + qn (length ys))%Qc |} in
+  annual_summary exact af fy ds d
+  = Ok ((if Qcltb 0 (ah_n h) then [abuy_tx (d_tx d) (jan1 (fy - 1)) h] else [])
+        ++ map (fun yg => asell_tx (d_tx d) (ysell af aps yg)) ys).
+Print Assumptions C10_annual_summary_rows.
